@@ -57,7 +57,7 @@ def gen(rng, tier, index):
             o = rng.choice(OUTCOMES)
             if o != "ok":
                 outcomes[s] = o
-        steps.append({"tag": f"_{k + 1}", "outcomes": outcomes})
+        steps.append({"tag": f"_{k + 1}", "outcomes": outcomes, "any": k > 0 and rng.random() < 0.3})
     writer = rng.choice(["seqs", "seqs", "json", "db"])
     parallel = rng.random() < 0.75
     plan = {
@@ -120,7 +120,7 @@ def build_app(plan, data_store=None, with_writer=True):
         app = nxt if app is None else app + nxt
         names.append("min_length")
     for k, st in enumerate(plan["steps"]):
-        cls = va.STEP_CLASSES[k % 3]
+        cls = va.planned_any if st.get("any") else va.STEP_CLASSES[k % 3]
         nxt = cls(st["tag"], dict(st["outcomes"]))
         app = nxt if app is None else app + nxt
         names.append(cls.__name__)
@@ -161,7 +161,8 @@ def predict(plan, inp, names):
         if o in ("false", "relabel"):
             return ("nc", "FALSE", me)
         if o == "wrong":
-            # the next app in the chain rejects the type
+            # the next app in the chain rejects the type - unless its input hint
+            # accepts anything, in which case its main() fails on the value
             nxt = names[pos + k + 1] if pos + k + 1 < len(names) else None
             return ("nc", "ERROR", nxt)
     return ("completed", None, None)
@@ -459,7 +460,8 @@ def run(plan, tier="quick", real_pool=False) -> RunResult:
     for inp in plan["inputs"]:
         p = predict(plan, inp, ([] if plan["input_form"] == "objects" else ["load_unaligned"]) +
                     (["min_length"] if plan["min_length"] else []) +
-                    ["planned", "planned2", "planned3"][: len(plan["steps"])] + ["writer"])
+                    ["planned_any" if st.get("any") else ["planned", "planned2", "planned3"][k % 3]
+                     for k, st in enumerate(plan["steps"])] + ["writer"])
         outcome_pattern.append(f"{p[0][0]}{p[1] or ''}")
         res.probe(f"outcome:{p[1] or 'completed'}")
     order = "".join(str(i) for i in pool.delivered)
